@@ -10,6 +10,9 @@ CHECKS = {
  "C02": dict(technique="bounded-exhaustive enumeration of documents x requests x positions and of edit histories, executed on the real server loop (in process, tokio shim)",
    text="every document of the bounded families (token soups <=3/4 tokens, character soups <=3/4 chars incl. multi-byte, generated valid programs in 6 layouts, all single-token mutations of generated programs, nesting ladders <=32, edit histories) is opened in the unmodified LanguageServer::run(); all 13 request methods at every (line, UTF-16 column) incl. overshooting positions must be answered with exactly one well-formed result response in order, without panic or Err",
    note="in-process run() with in-memory stdio; a non-terminating case is reported by a watchdog as a violation (hang); process-level liveness belongs to C18", ref="4/C02"),
+ "C03": dict(technique="bounded-exhaustive enumeration of programs classified by an independent reference checker (well-typed / exactly one rule violated) x layouts x comment placements through the real analysis and publishDiagnostics",
+   text="every program of the well-typed family gets no diagnostic; every program of the expression/statement/fault-pool/declaration-fault families that the reference checker classifies as violating exactly one rule gets >=1 diagnostic of that rule inside the byte span of the offending construct and none of another rule (all 27 rule kinds occur); ranges lie inside the document; published diagnostics equal errors() converted by the LSP text model",
+   note="reference checker refsem.rs; programs violating several rules are skipped and counted", ref="4/C03"),
  "C04": dict(technique="bounded-exhaustive enumeration of grammar derivations x layouts x comment placements, parsed by the real parser and compared with the generating derivation",
    text="all derivations of the SPL grammar up to the token bounds per focus family (expressions, statements, type expressions, whole programs) in typed contexts x 6 layouts x a comment in every gap: projection of the parsed tree equals the derivation, every node range equals its token span, no syntax diagnostic",
    note="expected tree known by construction from the generator (no reference parser); bounded by token counts and pools", ref="4/C04"),
